@@ -142,6 +142,8 @@ def run_acceptor(ctx, tier=None, storage="mem", profile=""):
     pid = os.getpid()
     jobs = [("-seed %d -n %d -events %d" % (ctx.seed * 1000 + b, sz["n"], sz["events"]), "traces-%d-%d.txt" % (pid, b))
             for b in range(sz["blocks"])]
+    # the directed schedules of harness/cmd/raftabs/scenarios.go (always, cheap and deterministic)
+    jobs.insert(0, ("-scenario all", "scenarios-%d.txt" % pid))
     if sz.get("cp"):
         jobs.append(("-crashpoints -seed %d -n %d -events %d" % (ctx.seed * 1000 + 999, sz["cp"], sz["cp_events"]), "crashpoints-%d.txt" % pid))
     for args, fn in jobs:
@@ -153,6 +155,10 @@ def run_acceptor(ctx, tier=None, storage="mem", profile=""):
         gen_s += dt
         if rc != 0:
             raise RuntimeError("raftabs trace generation failed (%s): %s" % (args, out[-800:]))
+        for line in out.split("\n"):
+            if line.startswith("SCENARIO-PROBLEM"):
+                rejected.append(dict(trace="scenario", seq=-1, event="scenario",
+                                     why="directed scenario did not run as on the unchanged code: " + line[len("SCENARIO-PROBLEM "):]))
         summary, rej, skp = run_traces(path, exe=exe)
         n_traces += summary.get("traces", 0)
         n_steps += summary.get("abstract_steps", 0)
